@@ -45,7 +45,7 @@ func schedC06(c *ctx) map[string]interface{} {
 }
 
 func schedC07(c *ctx) map[string]interface{} {
-	a := runSched(c, []famCount{{"failfast", c.scale(2500)}, {"drain", c.scale(500)}, {"cancel", c.scale(500)}, {"mix", c.scale(500)}, {"fanin", c.pick(6, 60)}}, false)
+	a := runSched(c, []famCount{{"failfast", c.scale(2500)}, {"drain", c.scale(500)}, {"cancel", c.scale(500)}, {"mix", c.scale(500)}, {"fanin", c.pick(16, 80)}}, false)
 	return a.coverage(ruleS + "fail-fast mode and at least one job body actually failed")
 }
 
